@@ -6,6 +6,15 @@ over names that are prefixes of one another at every level.  After every
 operation the persisted tables / in-memory indices are audited by independent
 code and the prime table is compared with a set model written from the
 property statement.
+
+A second, seed-independent part ("decimal-prefix ids") builds tables with 13
+(thorough: 22) siblings n00..n12 at one level, so that numeric ids which are
+decimal prefixes / suffixes of one another coexist (1 and 10..12, 0 and 10,
+2 and 12; run ids 1 and 10..12, 21), writes entries for only one of two such
+siblings and addresses trace / reset / load / remove at the other one.  The
+sibling names are not prefixes of one another, so a failure there can only
+come from confusing the ids in the textual keys; its signatures start with
+'id-prefix:<level>:'.
 '''
 
 import itertools
@@ -26,7 +35,11 @@ BOUND = (
     'names from {A,AB,ABC,B} at each of the 5 levels (target, task, algorithm, '
     'state vector, value), 3 algorithm versions, 2 state-vector and value '
     'versions, runs in {1,2,3,10}; a core of 140 six-step histories (every '
-    'level x every ordered pair of names) is enumerated, the rest is sampled'
+    'level x every ordered pair of names) is enumerated, the rest is sampled; plus '
+    'an enumerated seed-independent part with 13 (thorough: 22) siblings n00.. at one '
+    'of the levels (or run ids 1,2 vs 10,11,12,21,..) for every pair of ids of which '
+    'one is a decimal sub-string of the other x {only the long id has entries, only '
+    'the short id has entries, both have}'
 )
 
 CLAUSES = [
@@ -53,6 +66,9 @@ UNSET = (9, 9, 9)  # version of the objects handed to reset()
 class Runner:
     def __init__(self, case):
         self.case = case
+        self.tag = case.get('tag')  # 'id-prefix:<level>' for the decimal-prefix part
+        self.svnames = set()
+        self.effective = None
         self.entries = set()  # (run, tn, kn, (an,av), (sn,sv), (vn,vv))
         self.targets = set()
         self.tasks = set()
@@ -62,7 +78,9 @@ class Runner:
         self.step = -1
         self.content = 0
 
-    def flag(self, clause, signature, observed, expected):
+    def flag(self, clause, signature, observed, expected, idsig=None):
+        if self.tag:
+            signature = self.tag + ':' + (idsig or signature)
         self.found.append({'clause': clause, 'signature': signature, 'observed': observed, 'expected': expected, 'step': self.step})
 
     # ---- audits (independent code) --------------------------------------------
@@ -95,9 +113,11 @@ class Runner:
             extra = sorted(got - self.entries)
             missing = sorted(self.entries - got)
             sig = ('lost-entries' if missing else '') + ('+' if missing and extra else '') + ('unexpected-entries' if extra else '')
+            idsig = op[0] + '-' + sig
             if op[0] == 'remove':
                 sig += ':' + self.collision_kind(op, missing)
-            self.flag(clause, sig, {'after': op, 'missing': missing, 'unexpected': extra}, 'prime == entries written and not removed by exact name')
+                idsig = ('remove-deleted-entries-of-other-id' if missing else '') + ('+' if missing and extra else '') + ('remove-kept-the-addressed-entries' if extra else '')
+            self.flag(clause, sig, {'after': op, 'missing': missing, 'unexpected': extra}, 'prime == entries written and not removed by exact name', idsig)
             self.entries = got  # resynchronise: report each divergence once
         return tabs, idxs
 
@@ -125,6 +145,7 @@ class Runner:
         ds = sc.dataset(alg, kn, run, tn)
         ds.update()
         self.names_registered(tn, kn, an, av)
+        self.svnames.add(sn)
         self.entries.add((run, tn, kn, (an, tuple(av)), (sn, tuple(sv)), (vn, tuple(vv))))
 
     def op_register(self, op):
@@ -138,6 +159,7 @@ class Runner:
             sc.as_worker(False)
         self.tasks.add(kn)
         self.algs.add((kn, an, tuple(av)))
+        self.svnames.add(sn)
 
     def op_add(self, op):
         _, tn, mode = op
@@ -155,6 +177,7 @@ class Runner:
         alg = sc.make_alg(an, av, [(sn, sv, [(vn, vv, 'placeholder')])])
         sc.dataset(alg, kn, run, tn).load()
         self.names_registered(tn, kn, an, av)
+        self.svnames.add(sn)
 
     def op_remove(self, op):
         _, run, tn, kn, an, sn, vn = op
@@ -172,7 +195,9 @@ class Runner:
 
     def op_reset(self, op):
         _, run, tn, kn, an = op
-        alg = sc.make_alg(an, UNSET, [(n, UNSET, []) for n in NAMES])
+        # the object handed to reset() carries every state vector name in use
+        svnames = NAMES + sorted(self.svnames - set(NAMES))
+        alg = sc.make_alg(an, UNSET, [(n, UNSET, []) for n in svnames])
         try:
             dawgie.db.reset(run, tn, kn, alg)
         except KeyError:
@@ -192,18 +217,25 @@ class Runner:
                     f'versions-taken-from-{kind}-named-algorithm',
                     dict(observed, op=op, entries_of_other_algorithms=others),
                     'no entry of this run/target/task carries the exact algorithm name: versions not taken from other algorithms',
+                    'reset-took-version-of-other-id',
                 )
             return
         avs = {e[3][1] for e in exact}
         if got_alg not in avs:
-            self.flag('C08.reset.exact', 'algorithm-version', dict(observed, op=op), {'alg_version_one_of': sorted(avs)})
+            self.flag('C08.reset.exact', 'algorithm-version', dict(observed, op=op), {'alg_version_one_of': sorted(avs)}, 'reset-took-algorithm-version-of-other-id')
             return
-        for n in NAMES:
+        for n in svnames:
             svs = {e[4][1] for e in exact if e[3][1] == got_alg and e[4][0] == n}
             if svs and got_sv[n] not in svs:
-                self.flag('C08.reset.exact', 'state-vector-version', dict(observed, op=op, sv=n), {'sv_version_one_of': sorted(svs)})
+                self.flag('C08.reset.exact', 'state-vector-version', dict(observed, op=op, sv=n), {'sv_version_one_of': sorted(svs)}, 'reset-took-state-vector-version-of-other-id')
             if not svs and got_sv[n] != UNSET:
-                self.flag('C08.reset.exact', 'state-vector-version-from-other-name', dict(observed, op=op, sv=n), 'unchanged: no entry with that exact state vector name')
+                self.flag(
+                    'C08.reset.exact',
+                    'state-vector-version-from-other-name',
+                    dict(observed, op=op, sv=n),
+                    'unchanged: no entry with that exact state vector name',
+                    'reset-set-state-vector-without-entries-from-other-id',
+                )
 
     def op_trace(self, op):
         tans = [tuple(x) for x in op[1]]
@@ -229,7 +261,8 @@ class Runner:
                 if got != want:
                     cands = sorted({(e[3][0], e[0]) for e in self.entries if e[1] == tn and e[2] == kn and e[0] == got and e[3][0] != an})
                     kind = 'prefix-named' if any(c[0].startswith(an) for c in cands) else ('other-named' if cands else 'wrong-run')
-                    self.flag('C08.trace.exact', f'reports-{kind}', {'op': op, 'target': tn, 'task.alg': tan, 'reported': got, 'entries_with_that_run': cands}, {'run': want})
+                    idsig = 'trace-misses-the-run-of-the-exact-id' if got is None else 'trace-reports-run-of-other-id'
+                    self.flag('C08.trace.exact', f'reports-{kind}', {'op': op, 'target': tn, 'task.alg': tan, 'reported': got, 'entries_with_that_run': cands}, {'run': want}, idsig)
 
     def run(self):
         store = sc.Store(prefix='verif_c08_')
@@ -260,6 +293,12 @@ class Runner:
                     except Exception as e:  # pylint: disable=broad-except
                         self.flag('C08.catalogue', f'{op[0]}-raised-{type(e).__name__}', {'op': op, 'error': repr(e)}, 'operation completes')
                 self.audit(op)
+            if self.case.get('ids'):
+                # did the siblings really get the ids the case is about?
+                table, sname, sid, lname, lid = self.case['ids']
+                tab = sc.snapshot()[0][table]
+                ids = {nm: {i for k, i in tab.items() if sc.parse_key(k)[1] == nm} for nm in (sname, lname)}
+                self.effective = sid in ids[sname] and lid in ids[lname]
         finally:
             store.destroy()
         return self.found, self.execs
@@ -351,6 +390,115 @@ def random_case(rng):
     return {'ops': ops}
 
 
+# ---- decimal-prefix ids (seed independent) ----------------------------------
+# 13 (thorough: 22) siblings n00, n01, ... are registered in order at one level,
+# which gives them the ids 0, 1, ...; their names are not prefixes of one another,
+# their ids are (1 / 10, 11, 12 ...).  Everything else is called 'x'.  F_SHORT /
+# F_LONG are the versions stored with the short-id / long-id sibling, so that a
+# reset which looks at the wrong sibling's entries hands out a visibly wrong one.
+X = 'x'
+V0 = (1, 1, 0)
+F_SHORT = (1, 3, 0)
+F_LONG = (2, 4, 0)
+ID_SIBLINGS = {'quick': 13, 'thorough': 22}
+ID_RUNS = {
+    'quick': [(1, 10), (1, 11), (1, 12), (2, 12), (1, 21)],
+    'thorough': [(s, l) for l in list(range(10, 32)) + [100, 101, 110, 112, 121, 211] for s in list(range(1, 10)) + [10, 11, 12, 21] if s < l and str(s) in str(l)],
+}
+ID_TABLE = {'target': 'target', 'task': 'task', 'alg': 'alg', 'sv': 'state', 'val': 'value'}
+ID_MODES = ['only-long', 'only-short', 'both']
+
+
+def _sib(i):
+    return f'n{i:02d}'
+
+
+def id_pairs(n):
+    '''(short, long): both below n and short's decimals occur in long's'''
+    return [(s, l) for l in range(10, n) for s in range(10) if str(s) in str(l)]
+
+
+def _thing(level, i, flav, run):
+    '''[run, target, task, alg, alg ver, sv, sv ver, value, value ver] of sibling i'''
+    n = _names(level, _sib(i), X) if level != 'run' else {lv: X for lv in LEVELS}
+    av = flav if level in ('run', 'task', 'alg') else V0
+    sv = flav if level != 'val' else V0
+    return [run, n['target'], n['task'], n['alg'], av, n['sv'], sv, n['val'], flav]
+
+
+def _id_ops(short, long, mode):
+    def trace():
+        tans = [[short[2], short[3]]]
+        if [long[2], long[3]] not in tans:
+            tans.append([long[2], long[3]])
+        return ['trace', tans]
+
+    def write(t):
+        return ['write', *t]
+
+    def load(t):
+        return ['load', *t]
+
+    def reset(t):
+        return ['reset', t[0], t[1], t[2], t[3]]
+
+    def remove(t):
+        return ['remove', t[0], t[1], t[2], t[3], t[5], t[7]]
+
+    if mode == 'both':
+        return [
+            write(short),
+            write(long),
+            trace(),
+            reset(short),
+            reset(long),
+            load(short),
+            remove(short),  # long's entry stays
+            reset(long),
+            reset(short),  # nothing left for it: versions untouched
+            trace(),
+            ['reopen'],
+            remove(long),
+        ]
+    have, addr = (long, short) if mode == 'only-long' else (short, long)
+    return [
+        write(have),
+        trace(),
+        reset(addr),  # no entry under that id: versions untouched
+        load(addr),
+        remove(addr),  # nothing to remove
+        reset(have),
+        trace(),
+        ['reopen'],
+        remove(have),
+    ]
+
+
+def id_prefix_cases(tier):
+    n = ID_SIBLINGS[tier]
+    for level in LEVELS:
+        for s, l in id_pairs(n):
+            for mode in ID_MODES:
+                setup = []
+                for i in range(n):
+                    t = _thing(level, i, F_LONG if i == l else F_SHORT, 11)
+                    if level == 'target':
+                        setup.append(['add', t[1], 'local'])
+                    else:
+                        setup.append(['register', *t[2:], 'local'])
+                short, long = _thing(level, s, F_SHORT, 11), _thing(level, l, F_LONG, 11)
+                yield {
+                    'tag': 'id-prefix:' + level,
+                    'ids': [ID_TABLE[level], _sib(s), s, _sib(l), l],
+                    'what': f'{level} ids {s} / {l}, {mode}',
+                    'ops': setup + _id_ops(short, long, mode),
+                }
+    for rs, rl in ID_RUNS[tier]:
+        for mode in ID_MODES:
+            short, long = _thing('run', 0, F_SHORT, rs), _thing('run', 0, F_LONG, rl)
+            yield {'tag': 'id-prefix:run', 'what': f'run ids {rs} / {rl}, {mode}', 'ops': _id_ops(short, long, mode)}
+
+
 def _work(args):
     cases, deadline = args
     sc.install()
@@ -359,8 +507,9 @@ def _work(args):
     for case in cases:
         if sc.expired(deadline):
             break
-        found, execs = run_case(case)
-        out.append((case, found, execs))
+        runner = Runner(case)
+        found, execs = runner.run()
+        out.append((case, found, execs, runner.effective))
     return out
 
 
@@ -378,26 +527,37 @@ def run(tier: str, seed: int) -> dict:
     else:
         nrand, procs = 24000, min(16, os.cpu_count() or 1)
     rand = [random_case(rng) for _ in range(nrand)]
-    cases = core + rand
+    idp = list(id_prefix_cases(tier))  # seed independent
+    cases = core + idp + rand
     deadline = t0 + sc.BUDGET_S[tier]
+    # the decimal-prefix part is never dropped for time (it is small and enumerated)
     if procs > 1:
         import multiprocessing
 
-        chunks = [cases[i :: procs * 8] for i in range(procs * 8)]
+        jobs = [(idp[i :: procs * 2], None) for i in range(procs * 2)]
+        jobs += [((core + rand)[i :: procs * 8], deadline) for i in range(procs * 8)]
         with multiprocessing.get_context('fork').Pool(procs) as pool:
-            parts = pool.map(_work, [(c, deadline) for c in chunks], chunksize=1)
+            parts = pool.map(_work, [j for j in jobs if j[0]], chunksize=1)
         results = [r for part in parts for r in part]
     else:
-        results = _work((cases, deadline))
+        results = _work((idp, None)) + _work((core + rand, deadline))
     skipped = len(cases) - len(results)
     viol = sc.Violations()
     execs = 0
     sigs = set()
-    for case, found, n in results:
+    id_execs = id_hist = id_effective = 0
+    for case, found, n, effective in results:
         execs += n
         sigs.add(repr(case['ops']))
+        if case.get('tag'):
+            id_execs += n
+            id_hist += 1
+            id_effective += effective is not False
         for f in found:
-            viol.add(f['clause'], f['signature'], {'ops': case['ops'][: f['step'] + 1]}, f['observed'], f['expected'])
+            inp = {'ops': case['ops'][: f['step'] + 1]}
+            if case.get('tag'):
+                inp.update(tag=case['tag'], what=case['what'])
+            viol.add(f['clause'], f['signature'], inp, f['observed'], f['expected'])
     return {
         'cases': execs,
         'distinct': len(sigs),
@@ -406,24 +566,35 @@ def run(tier: str, seed: int) -> dict:
             'write n2-entry, trace/reset/remove addressed at n1, reopen; and for n1 != n2 the variant where only the n2-entry exists) '
             f'+ {nrand} seeded random histories of 3..6 operations over small per-level name pools; after every operation the tables, '
             'indices, prime chain, next() and the prime-entry model are audited; "cases" counts operations and observer calls executed '
-            'on the real code, "distinct" counts distinct histories (all contain at least one write)'
+            'on the real code, "distinct" counts distinct histories (all contain at least one write); '
+            f'+ {len(idp)} enumerated, seed-independent decimal-prefix-id histories: {ID_SIBLINGS[tier]} siblings n00.. registered at one of the 5 levels '
+            f'(ids 0..{ID_SIBLINGS[tier] - 1}) x every pair of ids (s,l), s one digit, l two, the digit of s occurring in l {id_pairs(ID_SIBLINGS[tier])[:5]}.. '
+            f'and {len(ID_RUNS[tier])} pairs of run ids x {{only l has entries, only s has, both have}}: trace / reset / load / remove addressed at the one '
+            'without entries (or at each in turn), reopen, final remove; a history counts as effective when the two siblings really hold the ids s and l'
         ),
         'exhaustive': False,
-        'samples': [core[1], core[2], rand[0], rand[1]],
+        'samples': [core[1], core[2], rand[0], rand[1], idp[7]],
         'violations': viol.as_list(),
         'clauses': CLAUSES,
         'histories': len(results),
+        'id_prefix': {'histories': id_hist, 'of': len(idp), 'effective': id_effective, 'cases': id_execs},
         'skipped_for_time': skipped,
         'wall_s': round(time.time() - t0, 2),
     }
 
 
 def replay(case: dict) -> dict:
+    # accepts the violation as reported (what ./check --replay hands over) or its 'input'
+    want = case.get('clause') if 'input' in case else None
+    case = case.get('input', case)
     sc.install()
     sc.fast_digest(True)
     found, _ = run_case(case)
+    if want is not None:
+        found = [f for f in found if f['clause'] == want] + [f for f in found if f['clause'] != want]
     return {
-        'reproduced': bool(found),
+        'reproduced': bool(found) if want is None else any(f['clause'] == want for f in found),
+        'signatures': sorted({f['signature'] for f in found}),
         'observed': sc.jsonable([f['observed'] for f in found[:3]]),
         'expected': sc.jsonable([f['expected'] for f in found[:3]]),
         'clauses': sorted({f['clause'] for f in found}),
